@@ -680,6 +680,11 @@ def replay(item, tier, seed):
     h = item.get("history", [])
     if h and h[0] == "recipe":
         sp.doc_case((h[1], ast.literal_eval(h[2])), out)
+    elif h and h[0] == "hist":
+        st = machine.State()
+        for x in h[1]:
+            machine.apply(st, ast.literal_eval(x), sp.hspec.values)
+        sp.judge_doc(st.doc, ("hist", list(h[1])), out)
     vs, _ = runner.violations_json(sp, out)
     vs = [v for v in vs if v["clause"] == item.get("clause") and v["sig"] == item.get("sig")] or vs
     return {"property": "C15", "coverage": {"states": 1, "transitions": 1, "traces_validated_against_impl": 1,
